@@ -13,6 +13,8 @@ import (
 	"testing"
 	"time"
 
+	"github.com/spf13/afero"
+
 	"github.com/xakep666/ps3netsrv-go/internal/handler"
 	"github.com/xakep666/ps3netsrv-go/pkg/server"
 )
@@ -117,7 +119,71 @@ func TestRaceAdjunct(t *testing.T) {
 		}
 		wg.Wait()
 	}
-	t.Logf("ADJUNCT-DONE clients=%d mismatches=%d", 3*64, bad)
+	// second phase: slow storage (every read of the underlying files takes a moment) and clients that go away in the
+	// middle of a large transfer while others are being served - work started for a connection that has ended
+	// (read-ahead, background closers) must not touch what other connections use
+	slow := newVFs(afero.NewOsFs(), "slow")
+	slow.record = false
+	slow.Hook = func(e FsEvent) *FsFault {
+		if e.Op == "Read" || e.Op == "ReadAt" {
+			time.Sleep(300 * time.Microsecond)
+		}
+		return nil
+	}
+	h2 := buildHandler(SrvOpts{Root: w.Root, LeafWrap: func(afero.Fs) afero.Fs { return slow }})
+	ln2, err := net.Listen("tcp", "127.0.0.1:0")
+	if err != nil {
+		t.Fatal(err)
+	}
+	s2 := &server.Server[handler.State]{Handler: h2, ReadTimeout: time.Minute, Logger: quietLogger}
+	go s2.Serve(ln2)
+	defer ln2.Close()
+	addr2 := ln2.Addr().String()
+	scripts2 := [][]Req{
+		{mkReq(opOpenFile, "/plain/f131073.bin"), rdcReq(0, 131073), rdReq(1, 70000)},
+		{mkReq(opOpenFile, "/plain/f65537.bin"), rdcReq(0, 65537), rdReq(5, 65000)},
+		{mkReq(opOpenFile, "/plain/f65536.bin"), rdReq(0, 65536), rdcReq(100, 60000)},
+	}
+	var solo2 [][]byte
+	for _, sc := range scripts2 {
+		b, err := tcpSession(addr2, sc)
+		if err != nil {
+			t.Fatal(err)
+		}
+		solo2 = append(solo2, b)
+	}
+	for round := 0; round < 3; round++ {
+		for c := 0; c < 48; c++ {
+			wg.Add(1)
+			go func(c int) {
+				defer wg.Done()
+				if c%2 == 0 {
+					// takes a few thousand bytes of a 128 KiB answer, then resets the connection
+					conn, err := net.Dial("tcp", addr2)
+					if err != nil {
+						return
+					}
+					conn.Write(mkReq(opOpenFile, "/plain/f131073.bin").Encode())
+					conn.Write(rdcReq(0, 131073).Encode())
+					conn.SetReadDeadline(time.Now().Add(30 * time.Second))
+					io.ReadFull(conn, make([]byte, 16+3000+c*100))
+					conn.(*net.TCPConn).SetLinger(0)
+					conn.Close()
+					return
+				}
+				si := c % len(scripts2)
+				b, err := tcpSession(addr2, scripts2[si])
+				if err != nil || !bytes.Equal(b, solo2[si]) {
+					mu.Lock()
+					bad++
+					mu.Unlock()
+					t.Errorf("ADJUNCT-MISMATCH slow-storage client %d script %d next to aborted transfers: err=%v stream differs from solo (%s)", c, si, err, describeDiff(b, solo2[si]))
+				}
+			}(c)
+		}
+		wg.Wait()
+	}
+	t.Logf("ADJUNCT-DONE clients=%d mismatches=%d", 3*64+3*48, bad)
 }
 
 var raceFrameRx = regexp.MustCompile(`(?m)^\s+(github\.com/xakep666/ps3netsrv-go/[^\s(]+)`)
@@ -174,7 +240,7 @@ func runRaceAdjunct(r *Reporter, prop string) {
 			r.Violation(prop+":adjunct-stream-mismatch", "free-running adjunct: "+txt[i:min(len(txt), i+300)], nil)
 		}
 	}
-	r.Extra("race_adjunct", map[string]any{"runs": total, "clients_per_run": 192, "race_reports": races, "note": "sampling adjunct, not the deciding step"})
+	r.Extra("race_adjunct", map[string]any{"runs": total, "clients_per_run": 336, "race_reports": races, "note": "sampling adjunct, not the deciding step"})
 }
 
 func lastLines(s string, n int) string {
